@@ -125,15 +125,26 @@ func (m *MessageDescriptor) Name() string {
 	return m.name
 }
 
+// The lookups answer nil on a nil descriptor (`Message()` of a field that is not a message):
+// a path or document that looks for a member below a scalar gets "no such field", not a nil dereference.
 func (m *MessageDescriptor) ByJSONName(name string) *FieldDescriptor {
+	if m == nil {
+		return nil
+	}
 	return (*FieldDescriptor)(m.names.Get(name))
 }
 
 func (m *MessageDescriptor) ByName(name string) *FieldDescriptor {
+	if m == nil {
+		return nil
+	}
 	return (*FieldDescriptor)(m.names.Get(name))
 }
 
 func (m *MessageDescriptor) ByNumber(id FieldNumber) *FieldDescriptor {
+	if m == nil {
+		return nil
+	}
 	return (*FieldDescriptor)(m.ids.Get(int32(id)))
 }
 
